@@ -30,10 +30,10 @@ TIMEOUT = {"quick": 900, "thorough": 5400}
 def plan(tier, seed):
     if tier == "quick":
         return [{"n_cases": 300, "mode": "A", "hashseed": i % 3} for i in range(8)] + \
-               [{"n_cases": 2, "mode": "A", "params": {"huge": True}}]
+               [{"n_cases": 6, "mode": "A", "params": {"huge": True}}]
     return [{"n_cases": 2200, "mode": "A", "hashseed": i % 4} for i in range(14)] + \
            [{"n_cases": 1200, "mode": "B", "hashseed": i} for i in range(2)] + \
-           [{"n_cases": 1, "mode": "A", "params": {"huge": True}, "hashseed": i % 4} for i in range(10)]
+           [{"n_cases": 3, "mode": "A", "params": {"huge": True}, "hashseed": i % 4} for i in range(10)]
 
 
 
@@ -57,6 +57,22 @@ def huge_case(rng):
 
 
 def gen_case(rng, ctx):
+    if ctx.params.get("huge") and rng.random() < 0.67:
+        # a local-search trap (gen.trap_dataset) inside a chain of more than 1000 elements: the majority ranking is the only
+        # departure that reaches its own score, and it differs from the dissenting ranking in the middle of the chain only
+        # (three or more common leading elements; s = 3, k = 2 is the combination from which the all-tied start stalls too)
+        ds, info = gen.trap_dataset(rng, tail=rng.choice([1000, 1000, 1003, 1100]), head=rng.choice([3, 3, 4, 6]),
+                                    order="dissenter-first" if rng.random() < 0.75 else None,
+                                    sk=(3, 2) if rng.random() < 0.8 else None)
+        return {"ds": ds, "scheme": [list(v) for v in ref.PRESETS["unifying"]], "dcls": "huge", "scls": "S1",
+                "libseed": rng.randrange(10 ** 6), "starters": [], "trap": info}
+    if not ctx.params.get("huge") and rng.random() < 0.06:
+        # the same trap on a few elements, under schemes where a tie costs as much as an inversion
+        ds, info = gen.trap_dataset(rng)
+        ds = libx.normalise_raw(ds)
+        sch = gen.scale(ref.PRESETS[rng.choice(["unifying", "pseudodistance", "induced"])], rng.choice([1.0, 1.0, 0.5, 2.0, 3.0]))
+        return {"ds": ds, "scheme": sch, "dcls": "trap", "scls": "S2", "libseed": rng.randrange(10 ** 6), "starters": [],
+                "trap": info}
     if ctx.params.get("huge"):
         return {"ds": huge_case(rng), "scheme": [list(v) for v in ref.PRESETS["unifying"]], "dcls": "huge", "scls": "S1",
                 "libseed": rng.randrange(10 ** 6), "starters": []}
